@@ -262,6 +262,8 @@ impl Variant {
             },
             Self::VLong(l_left) => match other {
                 Self::VLong(l_right) => Ok(Self::VLong(l_left - l_right)),
+                // not through negate, the negated result can be out of range when the result is not
+                Self::VInteger(i_right) => Ok(Self::VLong(l_left - i_right as i64)),
                 _ => other.minus(self).and_then(|x| x.negate()),
             },
             _ => Err(VariantError::TypeMismatch),
